@@ -10,7 +10,7 @@
 namespace ref {
 
 enum { TT_STOP = 0, TT_TRUE = 1, TT_FALSE = 2, TT_BYTE = 3, TT_I16 = 4, TT_I32 = 5, TT_I64 = 6, TT_DOUBLE = 7,
-       TT_BINARY = 8, TT_LIST = 9, TT_SET = 10, TT_MAP = 11, TT_STRUCT = 12 };
+       TT_BINARY = 8, TT_LIST = 9, TT_SET = 10, TT_MAP = 11, TT_STRUCT = 12, TT_RAW = 255 };
 
 struct TV {
     uint8_t t = TT_STOP;     // TT_TRUE stands for bool (value in b)
@@ -24,6 +24,7 @@ struct TV {
     uint8_t kt = 0, vt = 0;
     std::vector<std::pair<TV, TV>> m;
     bool long_form = false;                // writer: force long-form field header for this field
+    uint8_t raw_type = 0;                  // t == TT_RAW: pre-serialized value of this wire type (bytes in s)
 
     const TV* get(int id) const { for (auto& p : f) if (p.first == id) return &p.second; return nullptr; }
     TV* getm(int id) { for (auto& p : f) if (p.first == id) return &p.second; return nullptr; }
@@ -109,10 +110,11 @@ struct TWriter {
     void byte(uint8_t b) { out.push_back((char)b); }
     void varint(uint64_t v) { while (v >= 0x80) { byte((uint8_t)(v | 0x80)); v >>= 7; } byte((uint8_t)v); }
     void zz(int64_t v) { varint(((uint64_t)v << 1) ^ (uint64_t)(v >> 63)); }
-    static uint8_t wire_type(const TV& v) { return v.t == TT_TRUE ? (v.b ? TT_TRUE : TT_FALSE) : v.t; }
+    static uint8_t wire_type(const TV& v) { return v.t == TT_RAW ? v.raw_type : v.t == TT_TRUE ? (v.b ? TT_TRUE : TT_FALSE) : v.t; }
     void value(const TV& v, bool as_element) {
         switch (v.t) {
             case TT_TRUE: case TT_FALSE: if (as_element) byte(v.b ? 1 : 2); break;   // in a field the value is in the header
+            case TT_RAW: out += v.s; break;
             case TT_BYTE: byte((uint8_t)(int8_t)v.i); break;
             case TT_I16: case TT_I32: case TT_I64: zz(v.i); break;
             case TT_DOUBLE: { char b[8]; memcpy(b, &v.d, 8); out.append(b, 8); break; }
